@@ -290,6 +290,128 @@ theorem cAccumulatePinned_eq_of_uniform {α : Type} [Add α] {g : FlowGrid} (hg 
           | ok acc' => exact ih (fun k hk => hl k (List.mem_cons_of_mem _ hk)) acc'
       exact key _ (fun i hi => List.mem_range.1 hi) acc0
 
+/-! ### 8. the input buffers are not written (memory model), and the wrapper on grid objects -/
+
+/-- with two distinct buffers the kernel on memory is the pure kernel: `to_accumulate` is left as it was and the
+`accumulation` memory holds `cAccumulate` -/
+theorem cAccumulateS_unaliased {α : Type} [Add α] (g : FlowGrid) (m : Int) (nodata : α) (f a : Array α) :
+    cAccumulateS g m nodata ⟨f, a, false⟩ =
+      (cAccumulate g m nodata f a).map (fun a' => (⟨f, a', false⟩ : Store α)) :=
+  cAccumulateS_unaliased_eq g m nodata f a
+
+/-- the cell values of `to_accumulate` are not altered by the kernel when `accumulation` is another array
+(the flow-direction buffer has no write access in the model at all: it is not part of the store) -/
+theorem cAccumulateS_field_unchanged {α : Type} [Add α] {g : FlowGrid} {m : Int} {nodata : α} {s s' : Store α}
+    (h : s.aliased = false) (hr : cAccumulateS g m nodata s = .ok s') :
+    s'.field = s.field ∧ s'.aliased = false ∧ cAccumulate g m nodata s.field s.acc = .ok s'.acc := by
+  obtain ⟨f, a, al⟩ := s
+  simp only at h
+  subst h
+  rw [cAccumulateS_unaliased_eq] at hr
+  cases hc : cAccumulate g m nodata f a with
+  | error e => rw [hc] at hr; cases hr
+  | ok a' =>
+    rw [hc] at hr
+    cases hr
+    exact ⟨rfl, rfl, rfl⟩
+
+/-- the Cython asserts: a field grid whose shape is not the flow-direction grid's is rejected (before the limit
+is looked at) -/
+theorem gridAccumulate_shape {α : Type} [Add α] [OfNat α 1] (g : FlowGrid) (fdNodata : α) (f : FieldGrid α) (m : Int)
+    (h : f.nrows ≠ g.nrows ∨ f.ncols ≠ g.ncols) : gridAccumulate g fdNodata (some f) m = .error .shape := by
+  unfold gridAccumulate
+  simp only [if_pos h]
+
+/-- on a field grid of the right shape the wrapper is `accumulate` on the field's data with the field's no-data
+value; the field's memory is returned unchanged; the result grid has the field's no-data value and dimensions -/
+theorem gridAccumulate_some {α : Type} [Add α] [OfNat α 1] (g : FlowGrid) (fdNodata : α) (f : FieldGrid α) (m : Int)
+    (h : f.nrows = g.nrows ∧ f.ncols = g.ncols) :
+    gridAccumulate g fdNodata (some f) m =
+      (accumulate g m f.nodata f.data).map
+        (fun a => ((⟨f.data, a, false⟩ : Store α), (⟨f.nrows, f.ncols, a, f.nodata⟩ : FieldGrid α))) := by
+  unfold gridAccumulate accumulate
+  simp only [if_neg (show ¬(f.nrows ≠ g.nrows ∨ f.ncols ≠ g.ncols) by rw [h.1, h.2]; simp)]
+  rw [cAccumulateS_unaliased_eq]
+  cases cAccumulate g (capOf g m) f.nodata f.data f.data <;> rfl
+
+/-- `to_accumulate=None`: unit field on the flow-direction grid's shape, no-data value of the flow-direction grid -/
+theorem gridAccumulate_none {α : Type} [Add α] [OfNat α 1] (g : FlowGrid) (fdNodata : α) (m : Int) :
+    gridAccumulate g fdNodata none m =
+      (accumulateUnit g m fdNodata).map
+        (fun a => ((⟨Array.replicate g.flowdir.size 1, a, false⟩ : Store α),
+                   (⟨g.nrows, g.ncols, a, fdNodata⟩ : FieldGrid α))) := by
+  unfold gridAccumulate accumulateUnit accumulate
+  simp only [ne_eq, not_true_eq_false, or_self, if_false]
+  rw [cAccumulateS_unaliased_eq]
+  cases cAccumulate g (capOf g m) fdNodata (Array.replicate g.flowdir.size 1) (Array.replicate g.flowdir.size 1) <;> rfl
+
+/-- the input grids' cell values are not altered by a successful call, and the result grid is described by
+`accumulate` (hence by every theorem above), with the field's no-data value and the flow-direction grid's shape -/
+theorem gridAccumulate_inputs_unchanged {α : Type} [Add α] [OfNat α 1] {g : FlowGrid} {fdNodata : α}
+    {f : FieldGrid α} {m : Int} {s : Store α} {r : FieldGrid α}
+    (hr : gridAccumulate g fdNodata (some f) m = .ok (s, r)) :
+    s.field = f.data ∧ r.nodata = f.nodata ∧ r.nrows = g.nrows ∧ r.ncols = g.ncols ∧
+      accumulate g m f.nodata f.data = .ok r.data := by
+  by_cases h : f.nrows = g.nrows ∧ f.ncols = g.ncols
+  · rw [gridAccumulate_some g fdNodata f m h] at hr
+    cases hc : accumulate g m f.nodata f.data with
+    | error e => rw [hc] at hr; cases hr
+    | ok a =>
+      rw [hc] at hr
+      cases hr
+      exact ⟨rfl, rfl, h.1, h.2, rfl⟩
+  · rw [gridAccumulate_shape g fdNodata f m (by omega)] at hr
+    cases hr
+
+/-! ### 9. which cells drain nowhere, exactly; the computable closure the driver evaluates -/
+
+/-- a cell drains nowhere exactly when its flow direction is 0 (sink), is not a code of the table, or is a code
+whose neighbour (at the code's last position in the table) is off the grid -/
+theorem dn_neg_iff {g : FlowGrid} {c : Int} (hv : validCell g.nrows g.ncols c = true) {fd : Int}
+    (hfd : g.flowdir[c.toNat]? = some fd) :
+    dn g c < 0 ↔ fd = 0 ∨ fd ∉ g.codes ∨
+      ∃ k : Nat, g.codes[k]? = some fd ∧ (∀ k' : Nat, k < k' → g.codes[k']? ≠ some fd) ∧
+        neighbour g.nrows g.ncols c k = -1 := by
+  constructor
+  · intro hd
+    by_cases h0 : fd = 0
+    · exact Or.inl h0
+    · by_cases hmem : fd ∈ g.codes
+      · obtain ⟨k, h1, h2⟩ := exists_last_index hmem
+        refine Or.inr (Or.inr ⟨k, h1, h2, ?_⟩)
+        rw [dn_of_code hv hfd h0 h1 h2] at hd
+        rcases neighbour_eq_neg_one_or_nonneg g.nrows g.ncols c k with h | h
+        · exact h
+        · omega
+      · exact Or.inr (Or.inl hmem)
+  · rintro (h0 | hmem | ⟨k, h1, h2, h3⟩)
+    · subst h0; rw [dn_sink hv hfd]; omega
+    · by_cases h0 : fd = 0
+      · subst h0; rw [dn_sink hv hfd]; omega
+      · rw [dn_unknown_code hv hfd h0 hmem]; omega
+    · by_cases h0 : fd = 0
+      · subst h0; rw [dn_sink hv hfd]; omega
+      · rw [dn_of_code hv hfd h0 h1 h2, h3]; omega
+
+/-- the list the driver computes (`clo` request, compared with the harness's own upstream graph search) is the
+upstream closure the sum theorems range over -/
+theorem mem_upClosure_iff {g : FlowGrid} {fuel : Nat} (hT : AllTerminate g fuel) {j : Nat}
+    (hj : j < g.ntot.toNat) (u : Nat) : u ∈ upClosure g fuel (j : Int) ↔ u ∈ drainsThrough g (j : Int) := by
+  rw [(drainsThrough_eq_insert hT hj).1, Finset.mem_insert, Finset.mem_filter, Finset.mem_range]
+  unfold upClosure
+  rw [List.mem_filter, List.mem_range, Bool.or_eq_true, decide_eq_true_eq]
+  constructor
+  · rintro ⟨hu, h | h⟩
+    · left; omega
+    · right; exact ⟨hu, h⟩
+  · rintro (h | ⟨hu, h⟩)
+    · subst h; exact ⟨hj, Or.inl rfl⟩
+    · exact ⟨hu, Or.inr h⟩
+
+theorem mem_directUpList_iff {g : FlowGrid} {c : Int} (u : Nat) : u ∈ directUpList g c ↔ u ∈ directUp g c := by
+  unfold directUpList
+  rw [mem_directUp, List.mem_filter, List.mem_range, decide_eq_true_eq]
+
 /-! ### non-vacuity: a concrete non-trivial grid satisfying every hypothesis, and the finding -/
 
 /-- 2x3 grid, FLOWDIRCODE of grid.py; cells 0 → 1 → 2 (exit east), 3 → 1 (north-east), 4 → 1 (north), 5 sink -/
@@ -307,6 +429,28 @@ example : accumulate gEx (-1) (-9999 : Int) #[5, 1, 7, 2, 3, 4] = .ok #[5, 11, -
 /-- the pinned kernel on the same input: cell 1 receives its own value once per upstream cell -/
 example : cAccumulatePinned gEx 6 (-9999 : Int) #[5, 1, 7, 2, 3, 4] #[5, 1, 7, 2, 3, 4]
     = .ok #[5, 4, -9999, 2, 3, -9999] := by decide
+/-- the headline theorem applies to the example grid: all its hypotheses hold together -/
+example : ∃ acc, accumulate gEx (-1) (-9999 : Int) #[5, 1, 7, 2, 3, 4] = .ok acc ∧ acc.size = gEx.ntot.toNat ∧
+    ∀ c : Int, validCell gEx.nrows gEx.ncols c = true →
+      acc[c.toNat]? = some (if dn gEx c < 0 then -9999
+        else ∑ u ∈ drainsThrough gEx c, (fun j => (#[5, 1, 7, 2, 3, 4] : Array Int)[j]?.getD 0) u) :=
+  accumulate_acyclic_default ⟨by decide, by decide⟩ (by decide)
+    (noCycle_of_allTerminate (allTerminate_of_B (fuel := 7) (by decide))) (-9999)
+    (rep_self (#[5, 1, 7, 2, 3, 4] : Array Int) 0)
+/-- wrapper on grid objects: result grid and unchanged field memory; a 3x2 field on the 2x3 grid is rejected -/
+example : gridAccumulate gEx (-1 : Int) (some ⟨2, 3, #[5, 1, 7, 2, 3, 4], -9999⟩) (-1) =
+    .ok (⟨#[5, 1, 7, 2, 3, 4], #[5, 11, -9999, 2, 3, -9999], false⟩, ⟨2, 3, #[5, 11, -9999, 2, 3, -9999], -9999⟩) := by
+  decide
+example : gridAccumulate gEx (-1 : Int) (some ⟨3, 2, #[5, 1, 7, 2, 3, 4], -9999⟩) 0 = .error .shape := by decide
+/-- the same array passed as `to_accumulate` and `accumulation` on the chain 0 → 1 → 2 → 3 (sink): the field IS
+altered and cell 2 holds 18 instead of 7 + 5 + 1 = 13, because the walk from cell 1 reads the value the walk from
+cell 0 has already incremented — aliasing matters, so the wrapper's clone matters -/
+example : (cAccumulateS ⟨1, 4, [32, 64, 128, 16, 0, 1, 8, 4, 2], #[1, 1, 1, 0]⟩ 4 (-9999 : Int)
+      ⟨#[5, 1, 7, 0], #[], true⟩).map (·.field) = .ok #[5, 6, 18, -9999] ∧
+    (cAccumulateS ⟨1, 4, [32, 64, 128, 16, 0, 1, 8, 4, 2], #[1, 1, 1, 0]⟩ 4 (-9999 : Int)
+      ⟨#[5, 1, 7, 0], #[5, 1, 7, 0], false⟩).map (fun s => (s.field, s.acc))
+      = .ok (#[5, 1, 7, 0], #[5, 6, 13, -9999]) := by decide
+example : upClosure gEx 7 1 = [0, 1, 3, 4] ∧ directUpList gEx 1 = [0, 3, 4] := by decide
 /-- a 2-cycle (cells 0 ⇄ 1) terminates at the cap -/
 example : accumulate ⟨1, 2, [32, 64, 128, 16, 0, 1, 8, 4, 2], #[1, 16]⟩ (-1) (-1 : Int) #[1, 1] = .ok #[4, 4] := by
   decide
